@@ -163,14 +163,17 @@ Section Fmt.
     end.
 
   (* sortedSeqContents.Less reads, for each of the two elements, the Value of the node following the
-     LAST even-indexed Content entry whose Value is the sort field; Content[a+1] is out of range
-     when that entry is the last one of an odd-length Content (only a sequence can have one). *)
+     LAST even-indexed Content entry whose Value is the sort field AND that has a successor
+     (`Content[a].Value == sortField && a+1 < len(Content)`, /repo commit d64b8e2; before that commit
+     the last entry of an odd-length Content — only a sequence can have one — was indexed out of
+     range and the formatter panicked).  The result type stays [res] for uniformity with the other
+     model functions; the function never fails (FmtProofs.scan_field_total). *)
   Fixpoint scan_field (f : string) (l : list cnode) (acc : string) : res string :=
     match l with
     | [] => Ok acc
     | k :: rest =>
         match rest with
-        | [] => if String.eqb (cvalue k) f then Panic else Ok acc
+        | [] => Ok acc
         | v :: rest' => scan_field f rest' (if String.eqb (cvalue k) f then cvalue v else acc)
         end
     end.
@@ -196,7 +199,8 @@ Section Fmt.
     (* formatter.fmtNode(n, path, schema) with f.process == nil.
        Go sorts a node's Content first and recurses afterwards; the sort only reads keys that the
        recursion does not change for a mapping, and for a sequence the keys are taken here from the
-       elements BEFORE they are formatted, exactly as Go does. *)
+       elements BEFORE they are formatted, exactly as Go does.  Since d64b8e2 no branch returns
+       anything but [Ok] (FmtProofs.fmt_no_panic). *)
     Fixpoint fmt_node (s : sch) (path : string) (n : cnode) {struct n} : res cnode :=
       match n with
       | CScalar h v => Ok (CScalar (fmt_scalar s h v) v)
